@@ -110,11 +110,14 @@ pub struct C08Probe {
     pub uses_prev: bool,
     /// the converter tries to keep the reference beyond the call (must not compile)
     pub escape: bool,
+    /// ... by returning it as the error value of a failing conversion (`try_` entry) instead of storing it
+    #[serde(default)]
+    pub through_error: bool,
 }
 
 fn probe_strategy() -> impl Strategy<Value = C08Probe> {
-    (el_strategy(), any::<bool>(), 0u8..3, any::<bool>(), prop::bool::weighted(0.25))
-        .prop_map(|(el, try_entry, form, uses_prev, escape)| C08Probe { el, try_entry, form, uses_prev, escape })
+    (el_strategy(), any::<bool>(), 0u8..3, any::<bool>(), prop::bool::weighted(0.25), any::<bool>())
+        .prop_map(|(el, try_entry, form, uses_prev, escape, through_error)| C08Probe { el, try_entry, form, uses_prev, escape, through_error: escape && through_error })
 }
 
 /// One function per probe; `W<T>` is a transparent wrapper, so `Vec<T> -> Vec<W<T>>` has equal layouts.
@@ -125,6 +128,15 @@ fn probe_source(k: usize, p: &C08Probe) -> String {
     let call = if p.try_entry { "truc_runtime::convert::try_convert_vec_in_place" } else { "truc_runtime::convert::convert_vec_in_place" };
     let ret = if p.try_entry { format!("Result<Vec<W<{}>>, String>", t) } else { format!("Vec<W<{}>>", t) };
     let touch = if p.uses_prev { "if let Some(p) = prev.as_mut() { touch(&mut **p); }" } else { "" };
+    if p.escape && p.through_error {
+        // a failing converter hands the reference it was lent back as its error value
+        s.push_str(&format!(
+            "pub fn probe_{k}<'a>(input: Vec<{t}>) -> bool {{\n    let r = truc_runtime::convert::try_convert_vec_in_place(input, |x: {t}, prev: Option<&mut W<{t}>>| match prev {{ Some(p) => Err(p), None => Ok(VecElementConversionResult::Converted(W(x))) }});\n    r.is_err()\n}}\n",
+            k = k,
+            t = t
+        ));
+        return s;
+    }
     if p.escape {
         // the reference handed to the converter is pushed into a collection that outlives the call
         s.push_str(&format!(
@@ -187,6 +199,13 @@ fn check_probe(ext: &Externs, dir: &std::path::Path, k: usize, p: &C08Probe) -> 
                 m = text
             ),
         )),
+        (true, true) if p.through_error => Err((
+            "c09:previous-output-escapes-through-the-error".into(),
+            format!(
+                "a failing converter can return the `&mut` to the previous output element as its error value (element type {}): the caller then holds a reference to an output that the failed conversion has dropped and freed",
+                p.el.text()
+            ),
+        )),
         (true, true) => Err((
             "c08:previous-output-escapes".into(),
             format!(
@@ -198,10 +217,25 @@ fn check_probe(ext: &Externs, dir: &std::path::Path, k: usize, p: &C08Probe) -> 
 }
 
 pub fn run_c08(n: usize) -> Result<Value, String> {
+    run(n, false)
+}
+
+/// C09's share: the probes in which a failing converter tries to return the lent reference as its error, and
+/// the must-compile probes of the `try_` entry.
+pub fn run_c09(n: usize) -> Result<Value, String> {
+    run(n, true)
+}
+
+fn run(n: usize, c09: bool) -> Result<Value, String> {
     let ext = discover_externs()?;
-    let dir = work_dir("c08");
+    let dir = work_dir(if c09 { "c09" } else { "c08" });
     let mut seen = std::collections::BTreeSet::new();
-    let probes: Vec<C08Probe> = sample(&probe_strategy(), n, 0xC08).into_iter().filter(|p| seen.insert(crate::hash_of(p))).collect();
+    let probes: Vec<C08Probe> = sample(&probe_strategy(), if c09 { 3 * n } else { n }, 0xC08)
+        .into_iter()
+        .filter(|p| !c09 || (p.try_entry && (!p.escape || p.through_error)))
+        .filter(|p| c09 || !p.through_error)
+        .filter(|p| seen.insert(crate::hash_of(p)))
+        .collect();
     let results = parallel(probes.len(), vcore::env_threads(), |k| check_probe(&ext, &dir, k, &probes[k]));
     let mut out = Acc::default();
     for (k, r) in results.into_iter().enumerate() {
@@ -213,7 +247,7 @@ pub fn run_c08(n: usize) -> Result<Value, String> {
                 p.el.leaves(&mut classes);
                 classes.sort();
                 classes.dedup();
-                classes.push(if p.escape { "must_reject_reference_kept" } else { "must_compile" });
+                classes.push(if p.through_error { "must_reject_reference_returned_as_error" } else if p.escape { "must_reject_reference_kept" } else { "must_compile" });
                 classes.push(if p.try_entry { "try_entry" } else { "infallible_entry" });
                 if !p.escape {
                     classes.push(["closure_at_the_call", "closure_in_a_variable", "generic_fn_item"][p.form as usize % 3]);
@@ -233,8 +267,8 @@ pub fn run_c08(n: usize) -> Result<Value, String> {
     }
     let _ = fs::remove_dir_all(&dir);
     Ok(out.to_json(
-        "C08",
-        "compile-time part: element types from the grammar E ::= u64 | String | Rc<RefCell<_>> | Box<dyn Fn> | Box<dyn FnMut + Send> | &'a mut u64 | &'a Cell<u32> | *const u8 | Cell<u32> | NonNull<u16> | RecordMaybeUninit<24> | Option<E> | Vec<E> | (E, E) | [E; 3], entry point, form of the converter (closure at the call, closure in a variable, generic fn item), whether it uses the previous output; Vec<E> -> Vec<W<E>> with W transparent (equal layouts) must type-check under rustc against truc_runtime; in a quarter of the probes the converter pushes the `&mut` it gets into a collection that outlives the call, and that program must be rejected. non-trivial: an element type that is not Send + Sync + UnwindSafe + 'static, or a must-reject probe; distinct by hash of the probe",
+        if c09 { "C09" } else { "C08" },
+        "compile-time part: element types from the grammar E ::= u64 | String | Rc<RefCell<_>> | Box<dyn Fn> | Box<dyn FnMut + Send> | &'a mut u64 | &'a Cell<u32> | *const u8 | Cell<u32> | NonNull<u16> | RecordMaybeUninit<24> | Option<E> | Vec<E> | (E, E) | [E; 3], entry point, form of the converter (closure at the call, closure in a variable, generic fn item), whether it uses the previous output; Vec<E> -> Vec<W<E>> with W transparent (equal layouts) must type-check under rustc against truc_runtime; in a quarter of the probes the converter pushes the `&mut` it gets into a collection that outlives the call, and that program must be rejected (C09's share: a failing converter returns the reference as its error value; must be rejected too). non-trivial: an element type that is not Send + Sync + UnwindSafe + 'static, or a must-reject probe; distinct by hash of the probe",
     ))
 }
 
